@@ -42,10 +42,16 @@ def insertRat (x : Rat) : List Rat → List Rat
 /-- `d[np.argsort(d)]`: the values in ascending order -/
 def sortRat (d : List Rat) : List Rat := d.foldr insertRat []
 
-/-- `np.argsort(np.argsort(d))`, declaratively: the rank of every element, counting the elements that sort
-before it (smaller, or equal and earlier). -/
-def ranks (d : List Rat) : List Nat :=
-  d.zipIdx.map fun xi => (d.zipIdx.filter fun yj => decide (yj.1 < xi.1) || (decide (yj.1 = xi.1) && decide (yj.2 < xi.2))).length
+/-- ranks of the elements of `suf` inside `all`, `pre` being the elements before them: the number of
+elements that sort before it (smaller anywhere, or equal and earlier). -/
+def ranksAux (all : List Rat) : List Rat → List Rat → List Nat
+  | _, [] => []
+  | pre, x :: xs => (all.countP (fun y => decide (y < x)) + pre.countP (fun y => decide (y = x))) :: ranksAux all (pre ++ [x]) xs
+
+/-- `np.argsort(np.argsort(d))`, declaratively: *rank by counting*.  Ties are broken by position here; numpy
+leaves the order of ties unspecified, which only matters for stacks in which distinct positions have the
+same distance (they are refused, see `Props/C11.lean`). -/
+def ranks (d : List Rat) : List Nat := ranksAux d [] d
 
 /-- the element (of a list parallel to `d`) whose distance has rank `r` -/
 def atRank {α} (xs : List α) (rk : List Nat) (r : Nat) : Option α :=
@@ -92,9 +98,59 @@ def rowsToV3 (rows : List (List Rat)) : Except ErrKind (List V3) :=
     | some v => .ok v
     | none => .error .value
 
-/-- `get_volume_positions`.  Result `.ok none` is `(None, None)`. -/
-def getVolumePositions (rows : List (List Rat)) (ori : List Rat) (o : Opts) :
-    Except ErrKind (Option (Rat × List Int)) := do
+/-- spacing, regularity and the index of every examined row, without gaps allowed: mean spacing between
+the extreme distances, every consecutive difference close to it, index = rank. -/
+def spacingRegular (dSorted : List Rat) (rk : List Nat) (hint : Option Rat) (rtol atol : Rat) :
+    Except ErrKind (Rat × Bool × List Int) :=
+  match dSorted.head?, dSorted.getLast? with
+  | some lo, some hi =>
+    let s := (hi - lo) / ((dSorted.length : Rat) - 1)
+    let reg := (diffs dSorted).all fun x => isClose x s rtol atol
+    match hint with
+    | some h => if !isClose (rabs s) h rtol atol then .error .runtime else .ok (s, reg, rk.map Int.ofNat)
+    | none => .ok (s, reg, rk.map Int.ofNat)
+  | _, _ => .error .index
+
+/-- the same with gaps allowed: spacing = hint or the smallest consecutive difference (`none` when that is
+zero within `1e-5`), index = rounded multiple of the spacing above the lowest distance, regular iff
+every multiple is close to its rounding. -/
+def spacingMissing (d dSorted : List Rat) (hint : Option Rat) (rtol atol : Rat) :
+    Except ErrKind (Option (Rat × Bool × List Int)) := do
+  let sp ← (match hint with
+    | some h => pure (some h)
+    | none => match minList (diffs dSorted) with
+      | some m => if isClose m 0 npRtol eqTol then pure none else pure (some m)
+      | none => .error .value : Except ErrKind (Option Rat))
+  match sp, minList d with
+  | some s, some dmin =>
+    let mult := d.map fun x => (x - dmin) / s
+    let rounded := mult.map roundHalfEven
+    let reg := (mult.zip rounded).all fun mr => isClose mr.1 (mr.2 : Rat) rtol atol
+    pure (some (s, reg, rounded))
+  | _, _ => pure none
+
+/-- everything `get_volume_positions` does with the rows `u` it examines (at least two): distances along
+the normal, ranks, spacing, regularity, handedness, perpendicularity.  Result: `|spacing|` and the volume
+index of every examined row, or `none`. -/
+def examine (nrm : V3) (u : List V3) (sorted allowMissing : Bool) (hint : Option Rat) (rtol atol : Rat)
+    (enforce : Bool) : Except ErrKind (Option (Rat × List Int)) := do
+  let d := u.map nrm.dot
+  let rk : List Nat := if sorted then ranks d else List.range d.length
+  let dSorted := if sorted then sortRat d else d
+  let r ← (if allowMissing then spacingMissing d dSorted hint rtol atol
+           else (spacingRegular dSorted rk hint rtol atol).map some)
+  match r with
+  | none => pure none      -- smallest spacing is zero: `return None, None`
+  | some (sp, regular, inv) =>
+    if regular && enforce && sp < 0 then pure none
+    else
+      match atRank u rk 0, atRank u rk (u.length - 1) with
+      | some p1, some p2 =>
+        if regular && isPerpendicular nrm (p2.sub p1) then pure (some (rabs sp, inv)) else pure none
+      | _, _ => .error .index
+
+/-- option handling of `get_volume_positions` before any position is looked at -/
+def normaliseOpts (o : Opts) : Except ErrKind (Option Rat × Rat × Rat) := do
   if !o.sort && o.allowDuplicate then .error .value
   else if !o.sort && o.allowMissing then .error .value
   else do
@@ -107,68 +163,46 @@ def getVolumePositions (rows : List (List Rat)) (ori : List Rat) (o : Opts) :
       | none, some a => pure (0, a)
       | some r, none => pure (r, 0)
       | none, none => pure (defaultRtol, 0) : Except ErrKind (Rat × Rat))
-    if rows.isEmpty then .error .value     -- np.array([]) is one-dimensional
+    pure (hint, rtol, atol)
+
+/-- look every input row up among the examined rows and read its volume index -/
+def readIndices (inv : List Int) (uidx : List Nat) : Except ErrKind (List Int) :=
+  uidx.mapM fun k => (match inv[k]? with
+    | some v => pure v
+    | none => .error .index : Except ErrKind Int)
+
+/-- `get_volume_positions` on parsed rows, given the normal vector -/
+def volumePositionsOf (nrm : V3) (ps : List V3) (o : Opts) (hint : Option Rat) (rtol atol : Rat) :
+    Except ErrKind (Option (Rat × List Int)) := do
+  let n := ps.length
+  let uniq := uniqueRows ps
+  if !o.allowDuplicate && uniq.length < n then pure none
+  else do
+    -- the rows that are examined, and for every input row its index among them
+    let u := if o.sort then uniq else ps
+    let uidx : List Nat := if o.sort then ps.map (indexIn uniq) else List.range n
+    if u.length = 1 then pure (some (hint.getD 1, ps.map fun _ => 0))
     else do
-      let ps ← rowsToV3 rows
-      let n := ps.length
-      if n = 1 then pure (some (hint.getD 1, [0]))
-      else do
-        let oo ← (match Ori.ofList ori with | some x => pure x | none => .error .value : Except ErrKind Ori)
-        let cv ← normConvention o.conv
-        let nrm ← normalVector oo cv o.rightHanded
-        let uniq := uniqueRows ps
-        if !o.allowDuplicate && uniq.length < n then pure none
-        else do
-          -- the rows that are examined, and for every input row its index among them
-          let u := if o.sort then uniq else ps
-          let uidx : List Nat := if o.sort then ps.map (indexIn uniq) else List.range n
-          if u.length = 1 then pure (some (hint.getD 1, ps.map fun _ => 0))
-          else do
-            let d := u.map nrm.dot
-            let rk : List Nat := if o.sort then ranks d else List.range d.length
-            let dSorted := if o.sort then sortRat d else d
-            let (spacing, regular, inv) ← (
-              if o.allowMissing then do
-                let sp ← (match hint with
-                  | some h => pure (some h)
-                  | none => match minList (diffs dSorted) with
-                    | some m => if isClose m 0 npRtol eqTol then pure none else pure (some m)
-                    | none => .error .value : Except ErrKind (Option Rat))
-                match sp, minList d with
-                | some s, some dmin =>
-                  let mult := d.map fun x => (x - dmin) / s
-                  let rounded := mult.map roundHalfEven
-                  let reg := (mult.zip rounded).all fun mr => isClose mr.1 (mr.2 : Rat) rtol atol
-                  pure (some (s, reg, rounded))
-                | _, _ => pure none
-              else do
-                match dSorted.head?, dSorted.getLast? with
-                | some lo, some hi =>
-                  let s := (hi - lo) / ((dSorted.length : Rat) - 1)
-                  match hint with
-                  | some h => if !isClose (rabs s) h rtol atol then .error .runtime else pure ()
-                  | none => pure ()
-                  let reg := (diffs dSorted).all fun x => isClose x s rtol atol
-                  pure (some (s, reg, rk.map fun (r : Nat) => (Int.ofNat r)))
-                | _, _ => .error .index
-              : Except ErrKind (Option (Rat × Bool × List Int)))
-              |>.map (fun x => match x with
-                | some (s, r, i) => (some s, r, i)
-                | none => (none, false, []))
-            match spacing with
-            | none => pure none      -- smallest spacing is zero: `return None, None`
-            | some sp =>
-              if regular && o.enforce && sp < 0 then pure none
-              else
-                match atRank u rk 0, atRank u rk (u.length - 1) with
-                | some p1, some p2 =>
-                  if regular && isPerpendicular nrm (p2.sub p1) then do
-                    let vp ← uidx.mapM fun k => (match inv[k]? with
-                      | some v => pure v
-                      | none => .error .index : Except ErrKind Int)
-                    pure (some (rabs sp, vp))
-                  else pure none
-                | _, _ => .error .index
+      let r ← examine nrm u o.sort o.allowMissing hint rtol atol o.enforce
+      match r with
+      | none => pure none
+      | some (sp, inv) => do
+        let vp ← readIndices inv uidx
+        pure (some (sp, vp))
+
+/-- `get_volume_positions`.  Result `.ok none` is `(None, None)`. -/
+def getVolumePositions (rows : List (List Rat)) (ori : List Rat) (o : Opts) :
+    Except ErrKind (Option (Rat × List Int)) := do
+  let (hint, rtol, atol) ← normaliseOpts o
+  if rows.isEmpty then .error .value     -- np.array([]) is one-dimensional
+  else do
+    let ps ← rowsToV3 rows
+    if ps.length = 1 then pure (some (hint.getD 1, [0]))
+    else do
+      let oo ← (match Ori.ofList ori with | some x => pure x | none => .error .value : Except ErrKind Ori)
+      let cv ← normConvention o.conv
+      let nrm ← normalVector oo cv o.rightHanded
+      volumePositionsOf nrm ps o hint rtol atol
 
 /-- `get_plane_sort_index` -/
 def planeSortIndex (rows : List (List Rat)) (ori : List Rat) (conv : List Char) (rightHanded : Bool) :
